@@ -516,4 +516,78 @@ theorem last_listed_misses :
 
 end attach
 
+/-! ### the policy map follows the last switch
+
+`update_*_redirect_policy` is called whenever the reported channel state changes; what connect4 then does for
+a destination is decided by the policy map alone (`redirect_iff`). After any history of switches the map must
+say, for every destination, what the *last* switch for it said. -/
+section switches
+
+inductive Switch where
+  | on (k v : Dest)
+  | off (k : Dest)
+  deriving DecidableEq, Repr
+
+def Switch.key : Switch → Dest
+  | .on k _ => k
+  | .off k => k
+
+def applySwitch (m : List (Dest × Dest)) : Switch → List (Dest × Dest)
+  | .on k v => update m k v
+  | .off k => delete m k
+
+/-- the last switch of the history that names `k` -/
+def lastFor (k : Dest) : List Switch → Option Switch
+  | [] => none
+  | s :: t => match lastFor k t with
+    | some x => some x
+    | none => if s.key = k then some s else none
+
+theorem lookup_applySwitch (m : List (Dest × Dest)) (s : Switch) (k : Dest) :
+    lookup (applySwitch m s) k =
+      if s.key = k then (match s with | .on _ v => some v | .off _ => none) else lookup m k := by
+  cases s with
+  | on q v =>
+    by_cases h : (Switch.on q v).key = k
+    · rw [if_pos h]; have e : q = k := h; subst e; exact lookup_update_self _ _ _
+    · rw [if_neg h]; exact lookup_update_other _ _ _ _ (fun e => h e.symm)
+  | off q =>
+    by_cases h : (Switch.off q).key = k
+    · rw [if_pos h]; have e : q = k := h; subst e; exact lookup_delete_self _ _
+    · rw [if_neg h]; exact lookup_delete_other _ _ _ (fun e => h e.symm)
+
+/-- **C06 / C09 (policy map)** whatever the map held and whatever switches came before: after a history of
+switches, a destination is redirected exactly as the last switch that names it said, and as before when none does -/
+theorem policy_follows_last_switch (m : List (Dest × Dest)) (sw : List Switch) (k : Dest) :
+    lookup (sw.foldl applySwitch m) k =
+      match lastFor k sw with
+      | some (.on _ v) => some v
+      | some (.off _) => none
+      | none => lookup m k := by
+  induction sw generalizing m with
+  | nil => rfl
+  | cons s t ih =>
+    simp only [List.foldl_cons]
+    rw [ih]
+    simp only [lastFor]
+    cases h : lastFor k t with
+    | some x => cases x <;> rfl
+    | none =>
+      simp only [lookup_applySwitch]
+      by_cases hk : s.key = k
+      · simp only [hk, if_true]; cases s <;> rfl
+      · simp only [hk, if_false]
+
+/-- negative witness: a switch that is skipped (the object was busy) leaves the destination redirected after
+it was switched off — the map no longer says what the last switch said -/
+theorem skipped_switch_leaves_policy_stale :
+    let k : Dest := destKey 0x10813FA8 0x5000 ipprotoTcp
+    let v : Dest := destKey 0x0100007F 0x080C ipprotoTcp
+    lookup ([Switch.on k v].foldl applySwitch []) k = some v ∧
+    lookup ([Switch.on k v, Switch.off k].foldl applySwitch []) k = none := by decide
+
+example : lastFor [1] [Switch.on [1] [2], Switch.off [3], Switch.on [1] [4]] = some (Switch.on [1] [4]) := by decide
+
+end switches
+
 end Gpa.Props.C06
